@@ -759,6 +759,7 @@ fn c08_bin_lattice(ctx: &mut Ctx) {
             }
             ctx.rep.evaluations += 1;
             n += 1;
+            ctx.journal.note(|| format!("C08 bin lattice: coverage vectorise_one(\"AAA\", k=3), bin-size {bs}, {bc} bins, multiplicity {mult}"));
             let exp_bin = std::cmp::min((mult / bs as u64) as usize, bc - 1);
             let got = guard(|| raw.verif_vectorise_one(seq, &hm));
             let ok = match &got {
